@@ -286,11 +286,24 @@ Auth::Basic::Config::decode(char const *proxy_auth, const HttpRequest *request, 
         auth_user = lb;
         assert(auth_user != nullptr);
     } else {
-        /* replace the current cached password with the new one */
         Auth::Basic::User *basic_auth = dynamic_cast<Auth::Basic::User *>(auth_user.getRaw());
         assert(basic_auth);
-        basic_auth->updateCached(local_basic);
-        auth_user = basic_auth;
+        if (basic_auth->credentials() == Auth::Pending && strcmp(local_basic->passwd, basic_auth->passwd) != 0) {
+            /* A helper lookup for the cached password is in flight and its verdict
+             * will be written to the cached record. These credentials carry another
+             * password: they must neither change what that verdict is about nor be
+             * judged by it. Give them a record of their own; it takes over the cache
+             * slot, the old record lives on until its waiters are done. */
+            debugs(29, 9, "Creating new user '" << lb->username() << "' (another password is being verified for the cached one)");
+            lb->auth_type = Auth::AUTH_BASIC;
+            lb->expiretime = current_time.tv_sec;
+            lb->addToNameCache();
+            auth_user = lb;
+        } else {
+            /* replace the current cached password with the new one */
+            basic_auth->updateCached(local_basic);
+            auth_user = basic_auth;
+        }
     }
 
     /* link the request to the in-cache user */
